@@ -11,7 +11,9 @@ void parsec_output_verbose(int level, int id, const char *fmt, ...) { (void)leve
 
 #define NBLK 4
 #define BLKSZ 384
-typedef struct { _Alignas(64) unsigned char b[BLKSZ]; } vp_blk_t;
+/* typed header first: the arena's accesses to the chunk header are then ordinary member accesses for
+ * the solver (a plain byte array made every header access a 384-byte byte-extract) */
+typedef struct { _Alignas(64) parsec_arena_chunk_t hdr; unsigned char rest[BLKSZ - sizeof(parsec_arena_chunk_t)]; } vp_blk_t;
 static vp_blk_t BLK[NBLK];
 static int blk_state[NBLK];        /* 0 never used, 1 handed out by the allocator, 2 returned to the allocator */
 static size_t blk_req[NBLK];
